@@ -1533,6 +1533,14 @@ impl Linearizer {
         if !value.is_finite() {
             return Err(LinearizationError::NonFiniteNumber(Box::new(exp)));
         }
+        // A row whose variables all cancelled and whose comparison holds says
+        // nothing. Literal tautologies are dropped before lowering, dropping
+        // these too keeps compiling a rendered model a fixpoint.
+        if value.vars().values().all(|coefficient| *coefficient == 0.0)
+            && comparison_holds(value.rhs(), comparison, 0.0)
+        {
+            return Ok(());
+        }
         self.linear_constraints
             .push(MidLinearConstraint::new_from_linearized_context(
                 value, comparison, name,
@@ -1582,6 +1590,16 @@ impl Linearizer {
             }
         }
         for (name, value) in rows {
+            // the source may already fix the variable with this very row
+            let already_fixed = self.constraints.iter().any(|constraint| {
+                !constraint.is_logic_assertion()
+                    && constraint.constraint_type() == Comparison::Equal
+                    && matches!(constraint.lhs(), Exp::Variable(variable) if *variable == name)
+                    && matches!(constraint.rhs(), Exp::Number(number) if *number == value)
+            });
+            if already_fixed {
+                continue;
+            }
             self.emit_constraint(
                 Exp::Variable(name),
                 Comparison::Equal,
